@@ -116,6 +116,7 @@ def main(ctx):
     if ctx.tier != 'quick':
         req_strings += ctx.rng.sample(strings, 80000)
     request_part(ctx, model, req_strings)
+    bounds_part(ctx, model)
     to_qs_part(ctx, uri, model)
 
 
@@ -225,7 +226,8 @@ def request_part(ctx, model, strings):
     plan = [(s, o) for s in strings if len(s) <= 2 for o in OPTS] + [(s, rng.choice(OPTS)) for s in strings if len(s) > 2]
     for s, (kb, csv) in plan:
         req_flag = rng.random() < 0.3
-        mn, mx = rng.choice([(None, None), (0, None), (None, 4), (1, 41), (5, 3)])
+        mn = rng.choice([None, None, 0, -1, 1, 4, 5, 41])
+        mx = rng.choice([None, None, 0, -1, 1, 3, 4, 41])
         bat = rng.random() < 0.7
         if s.isascii():
             transports = [rng.choice(TRANSPORTS[:2])]
@@ -314,38 +316,55 @@ def make_request(testing, s, transport, opts):
 def check_getters(ctx, falcon, req, base, name, required, mn, mx, bat, mg, sg):
     """mg / sg: model / spec getter outcomes [get_param, int, bool, list, list(int), has_param]"""
     spec_get = dec_outcome(sg[0], common.wstr)
-    obs = {
-        'get_param': (observe(falcon, req.get_param, name, required=required), spec_get,
-                      dec_outcome(mg[0], common.wstr)),
-        'get_param_as_bool': (observe(falcon, req.get_param_as_bool, name, required=required, blank_as_true=bat),
-                              dec_outcome(sg[2], bool), dec_outcome(mg[2], bool)),
-        'get_param_as_list': (observe(falcon, req.get_param_as_list, name, required=required),
-                              dec_outcome(sg[3], lambda l: [common.wstr(x) for x in l]),
-                              dec_outcome(mg[3], lambda l: [common.wstr(x) for x in l])),
-    }
+    state = {'params': canon_params(req.params)}
+    obs = {}
+
+    def call(fn, thunk, spec, mod):
+        """run one getter, then require the parameter mapping to be what it was (getters may only
+        write into the store= dict)"""
+        obs[fn] = (thunk(), spec, mod)
+        now = canon_params(req.params)
+        if now != state['params']:
+            ctx.violation('getter-mutated-params',
+                          dict(base, fn=fn, name=name, required=required, params_before=state['params'],
+                               params_after=now,
+                               clause='the parameter mapping equals the reference reading (also after a getter ran)'),
+                          key='mutated-' + fn)
+            state['params'] = now       # report the getter that wrote, not the ones after it
+
+    wl = lambda l: [common.wstr(x) for x in l]  # noqa: E731
+    call('get_param', lambda: observe(falcon, req.get_param, name, required=required), spec_get,
+         dec_outcome(mg[0], common.wstr))
+    call('get_param_as_bool', lambda: observe(falcon, req.get_param_as_bool, name, required=required, blank_as_true=bat),
+         dec_outcome(sg[2], bool), dec_outcome(mg[2], bool))
+    call('get_param_as_list', lambda: observe(falcon, req.get_param_as_list, name, required=required),
+         dec_outcome(sg[3], wl), dec_outcome(mg[3], wl))
     vals = req.params.get(name)
     vals = vals if isinstance(vals, list) else ([] if vals is None else [vals])
     if all(int_domain(v) for v in vals):
-        obs['get_param_as_int'] = (observe(falcon, req.get_param_as_int, name, required=required, min_value=mn,
-                                           max_value=mx), dec_outcome(sg[1]), dec_outcome(mg[1]))
-        obs['get_param_as_list(int)'] = (observe(falcon, req.get_param_as_list, name, required=required,
-                                                 transform=int), dec_outcome(sg[4]), dec_outcome(mg[4]))
+        call('get_param_as_int', lambda: observe(falcon, req.get_param_as_int, name, required=required, min_value=mn,
+                                                 max_value=mx), dec_outcome(sg[1]), dec_outcome(mg[1]))
+        call('get_param_as_list(int)', lambda: observe(falcon, req.get_param_as_list, name, required=required,
+                                                       transform=int), dec_outcome(sg[4]), dec_outcome(mg[4]))
     else:
         ctx.count('int-out-of-domain')
     # converter oracles: falcon's wrapping only (proved: Model.get_param_conv factors through get_param)
     fl = (None if mn is None else float(mn), None if mx is None else float(mx))
-    obs['get_param_as_float'] = (observe(falcon, req.get_param_as_float, name, required=required, min_value=fl[0],
-                                         max_value=fl[1]), via(spec_get, float, fl[0], fl[1]), None)
-    obs['get_param_as_uuid'] = (observe(falcon, req.get_param_as_uuid, name, required=required),
-                                via(spec_get, uuid.UUID), None)
-    obs['get_param_as_datetime'] = (observe(falcon, req.get_param_as_datetime, name, required=required,
-                                            format_string='%Y'),
-                                    via(spec_get, lambda s: datetime.datetime.strptime(s, '%Y')), None)
-    obs['get_param_as_date'] = (observe(falcon, req.get_param_as_date, name, required=required, format_string='%Y'),
-                                via(spec_get, lambda s: datetime.datetime.strptime(s, '%Y').date()), None)
-    obs['get_param_as_json'] = (observe(falcon, req.get_param_as_json, name, required=required),
-                                via(spec_get, json_conv), None)
+    call('get_param_as_float', lambda: observe(falcon, req.get_param_as_float, name, required=required,
+                                               min_value=fl[0], max_value=fl[1]), via(spec_get, float, fl[0], fl[1]), None)
+    call('get_param_as_uuid', lambda: observe(falcon, req.get_param_as_uuid, name, required=required),
+         via(spec_get, uuid.UUID), None)
+    call('get_param_as_datetime', lambda: observe(falcon, req.get_param_as_datetime, name, required=required,
+                                                  format_string='%Y'),
+         via(spec_get, lambda s: datetime.datetime.strptime(s, '%Y')), None)
+    call('get_param_as_date', lambda: observe(falcon, req.get_param_as_date, name, required=required, format_string='%Y'),
+         via(spec_get, lambda s: datetime.datetime.strptime(s, '%Y').date()), None)
+    call('get_param_as_json', lambda: observe(falcon, req.get_param_as_json, name, required=required),
+         via(spec_get, json_conv), None)
     hp = req.has_param(name)
+    if canon_params(req.params) != state['params']:
+        ctx.violation('getter-mutated-params', dict(base, fn='has_param', name=name, params_before=state['params'],
+                                                    params_after=canon_params(req.params)), key='mutated-has_param')
     if hp != bool(sg[5]):
         ctx.violation('getter-clause-violated', dict(base, fn='has_param', name=name, impl=hp, reference=bool(sg[5])),
                       key='has_param')
@@ -365,6 +384,73 @@ def check_getters(ctx, falcon, req, base, name, required, mn, mx, bat, mg, sg):
         elif mod is not None and not same(impl, mod):
             ctx.violation('correspondence-broken', dict(base, fn=fn, name=name, impl=impl, model=mod,
                                                         broken='C08.getter_corr'), found_input=False, key='getter-corr')
+
+
+def bounds_part(ctx, model):
+    """min_value / max_value systematically: every pair over {absent, 0, -1, 1, v, v-1, v+1} around the
+    value v, for the int getter (judged by the extracted reference getter, and the model) and the
+    float getter (reference get_param composed with float() and the bounds), on WSGI and ASGI."""
+    import falcon
+    from falcon import testing
+    ints = ['0', '1', '-1', '2', '-2', '5', '41', '42', ' 7 ', '+3', '007', '-0']
+    floats = ['0.0', '0.5', '-0.5', '1.0', '-1.0', '2.5', '1e1', '-0.0', '3']
+    jobs = []
+    for text in ints + floats:
+        try:
+            v = int(text)
+        except ValueError:
+            v = None
+        fv = float(text)
+        base_b = [None, 0, -1, 1]
+        ib = base_b + ([v, v - 1, v + 1] if v is not None else [])
+        fb = base_b + [fv, fv - 1, fv + 1, fv - 0.5, fv + 0.5]
+        for tr in TRANSPORTS[:2]:
+            jobs.append((text, tr, ib, fb, v is not None))
+    cases, meta = [], []
+    for text, tr, ib, fb, is_int in jobs:
+        qs = 'n=' + text.replace(' ', '+').replace('+3', '%2B3') + '&m=x'
+        if is_int:
+            for mn in ib:
+                for mx in ib:
+                    cases.append([2, w_params([('n', text.replace('+3', '+3')), ('m', 'x')]), True, 'n', False,
+                                  [] if mn is None else [mn], [] if mx is None else [mx], True])
+                    meta.append((qs, tr, mn, mx))
+    outs = model.run_many(cases)
+    reqs = {}
+    for (qs, tr, mn, mx), o in zip(meta, outs):
+        req = reqs.get((qs, tr))
+        if req is None:
+            req = reqs[(qs, tr)] = make_request(testing, qs, tr, falcon.RequestOptions())
+        impl = observe(falcon, req.get_param_as_int, 'n', min_value=mn, max_value=mx)
+        spec, mod = dec_outcome(o[1][1]), dec_outcome(o[0][1])
+        ctx.count('int-bounds')
+        ctx.note_case(('ib', qs, tr, mn, mx), impl[0] == 0)
+        base = {'query_string': qs, 'keep_blank': True, 'csv': False, 'transport': tr, 'asgi': tr == 'asgi'}
+        if not same(impl, spec):
+            ctx.violation('getter-clause-violated',
+                          dict(base, fn='get_param_as_int', name='n', required=False, min_value=mn, max_value=mx,
+                               impl=impl, reference=spec, clause='min_value / max_value are honoured exactly'),
+                          key='int-bounds-%s' % impl[0])
+        elif not same(impl, mod):
+            ctx.violation('correspondence-broken', dict(base, fn='get_param_as_int', impl=impl, model=mod,
+                                                        broken='C08.getter_corr'), found_input=False, key='getter-corr')
+    for text, tr, ib, fb, is_int in jobs:
+        qs = 'n=' + text.replace(' ', '+').replace('+3', '%2B3') + '&m=x'
+        req = reqs.get((qs, tr)) or make_request(testing, qs, tr, falcon.RequestOptions())
+        got = req.get_param('n')
+        for mn in fb:
+            for mx in fb:
+                impl = observe(falcon, req.get_param_as_float, 'n', min_value=mn, max_value=mx)
+                spec = via([0, got], float, mn, mx)
+                ctx.count('float-bounds')
+                ctx.note_case(('fb', qs, tr, mn, mx), impl[0] == 0)
+                if not same(impl, spec):
+                    ctx.violation('getter-clause-violated',
+                                  {'query_string': qs, 'keep_blank': True, 'csv': False, 'transport': tr,
+                                   'fn': 'get_param_as_float', 'name': 'n', 'required': False, 'min_value': mn,
+                                   'max_value': mx, 'impl': impl, 'reference': spec,
+                                   'clause': 'min_value / max_value are honoured exactly'},
+                                  key='float-bounds-%s' % impl[0])
 
 
 def json_conv(s):
